@@ -144,6 +144,17 @@ def inventory(facts):
             if n.get("k") == "Switch":
                 walk(n.get("c") or {}, lambda x: mark(x["d"]) if x.get("k") == "Ref" and x.get("d") in vals else None)
         walk(fn["body"], g)
+        # any rejection whose path conditions mention the value validates it: `if (bad(v)) throw`, a switch / if-chain on v
+        # falling through to a throw, a guard clause followed by a throw - all put a literal about v into the reach of the throw
+
+        def thr(n):
+            if n.get("k") == "Expr" and isinstance(strip(n.get("e")), dict) and strip(n["e"]).get("k") == "Throw":
+                for lit in reach(fn["body"], n):
+                    t = txt(lit)
+                    if "good()" in t or "fail()" in t:
+                        continue
+                    walk(lit, lambda x: mark(x["d"]) if x.get("k") == "Ref" and (x.get("d") in vals or x.get("d") in derived_from) else None)
+        walk(fn["body"], thr)
         # values that are only skipped (never referenced) are padding
         used = {}
         walk(fn["body"], lambda x: used.__setitem__(x["d"], used.get(x["d"], 0) + 1) if x.get("k") == "Ref" and x.get("d") in vals else None)
